@@ -676,4 +676,490 @@ theorem overlayType_ok {env : Env} {root : Mod} {t : Stmt} {src : Source} {tdY :
       simp only [Res.mk.injEq, Option.some.injEq] at h
       exact ⟨pps, hp, h.1.symm, h.2⟩
 
+/-! ## What the overlay steps set -/
+
+theorem stepPath_path (t : Stmt) (s : St) :
+    (stepPath t s).1.path = ((t.argOf? "path").getD s.1.path) := by
+  unfold stepPath Stmt.argOf?
+  split <;> rename_i h <;> simp [h]
+
+theorem stepEnum_enum (t : Stmt) (s : St) :
+    (stepEnum t s).1.enum =
+      if (t.all "enum").isEmpty then s.1.enum else some (enumFold newEnum "value" (t.all "enum")).1 := by
+  unfold stepEnum
+  split <;> rename_i h
+  · simp [h]
+  · cases hq : t.all "enum" with
+    | nil => exact absurd hq (by simpa using h)
+    | cons a l => simp
+
+theorem stepBit_bit (t : Stmt) (s : St) :
+    (stepBit t s).1.bit =
+      if (t.all "bit").isEmpty then s.1.bit else some (enumFold newBits "position" (t.all "bit")).1 := by
+  unfold stepBit
+  split <;> rename_i h
+  · simp [h]
+  · cases hq : t.all "bit" with
+    | nil => exact absurd hq (by simpa using h)
+    | cons a l => simp
+
+theorem mem_appendNew (p : String) : ∀ (new have_ : List String),
+    p ∈ appendNew have_ new ↔ p ∈ have_ ∨ p ∈ new := by
+  intro new
+  induction new with
+  | nil => intro have_; simp [appendNew]
+  | cons q rest ih =>
+    intro have_
+    unfold appendNew
+    split
+    · rename_i hc
+      rw [ih]
+      have hq : q ∈ have_ := by simpa using hc
+      constructor
+      · rintro (h | h)
+        · exact Or.inl h
+        · exact Or.inr (List.mem_cons_of_mem _ h)
+      · rintro (h | h)
+        · exact Or.inl h
+        · cases h with
+          | head => exact Or.inl hq
+          | tail _ h => exact Or.inr h
+    · rw [ih]
+      simp only [List.mem_append, List.mem_cons, List.not_mem_nil, or_false]
+      exact or_assoc
+
+/-- How a fraction-digits argument is read: `asRangeInt(1, 18)` (0 when it is rejected). -/
+def parseFd (f : Stmt) : Nat :=
+  match Number.asRangeInt (some (bytesOf f.arg)) 1 18 with
+  | .ok i => i.toNat
+  | .error _ => 0
+
+/-- fraction-digits in an error-free kind switch: a statement is only accepted on a direct
+decimal64, a derived type keeps what it inherits. -/
+theorem stepKind_fd {env : Env} {root : Mod} {t : Stmt} {src : Source} {dec : Bool} {s : St}
+    (hs : s.2 = []) (h : (stepKind env root t src dec s).2 = [])
+    (hc : ¬ ((dec && s.1.fractionDigits != 0 && (t.one? "fraction-digits").isSome) = true)) :
+    (stepKind env root t src dec s).1.fractionDigits =
+      match t.one? "fraction-digits" with
+      | some f => parseFd f
+      | none => s.1.fractionDigits := by
+  unfold stepKind at h ⊢
+  simp only [] at h ⊢
+  split at h
+  · rename_i h1
+    rw [if_pos h1]
+    cases hfd : t.one? "fraction-digits" with
+    | none => rfl
+    | some f => rw [hfd] at hc; simp [h1] at hc
+  · rename_i h1
+    rw [if_neg h1]
+    split at h
+    · rename_i h2
+      rw [if_pos h2]
+      cases hfd : t.one? "fraction-digits" with
+      | none =>
+        rw [hfd] at h
+        simp [Number.asRangeInt, hs] at h
+      | some f =>
+        rw [hfd] at h
+        simp only [Option.map_some] at h ⊢
+        unfold parseFd
+        cases hi : Number.asRangeInt (some (bytesOf f.arg)) 1 18 with
+        | ok i => rfl
+        | error e => rw [hi] at h; try (simp at h)
+    · rename_i h2
+      rw [if_neg h2]
+      split at h
+      · simp [hs] at h
+      · rename_i h3
+        rw [if_neg h3]
+        have : t.one? "fraction-digits" = none := by
+          cases hq : t.one? "fraction-digits" with
+          | none => rfl
+          | some f => rw [hq] at h3; simp at h3
+        rw [this]
+        repeat' (first | rfl | split)
+
+/-! ## Typedef.resolve -/
+
+@[simp] theorem tdCopy_kind (td : Stmt) (y : YType) : (tdCopy td y).kind = y.kind := by
+  unfold tdCopy; repeat' (first | rfl | split)
+@[simp] theorem tdCopy_units (td : Stmt) (y : YType) : (tdCopy td y).units = y.units := by
+  unfold tdCopy; repeat' (first | rfl | split)
+@[simp] theorem tdCopy_default (td : Stmt) (y : YType) : (tdCopy td y).default = y.default := by
+  unfold tdCopy; repeat' (first | rfl | split)
+@[simp] theorem tdCopy_hasDefault (td : Stmt) (y : YType) : (tdCopy td y).hasDefault = y.hasDefault := by
+  unfold tdCopy; repeat' (first | rfl | split)
+@[simp] theorem tdCopy_fractionDigits (td : Stmt) (y : YType) : (tdCopy td y).fractionDigits = y.fractionDigits := by
+  unfold tdCopy; repeat' (first | rfl | split)
+@[simp] theorem tdCopy_path (td : Stmt) (y : YType) : (tdCopy td y).path = y.path := by
+  unfold tdCopy; repeat' (first | rfl | split)
+@[simp] theorem tdCopy_pattern (td : Stmt) (y : YType) : (tdCopy td y).pattern = y.pattern := by
+  unfold tdCopy; repeat' (first | rfl | split)
+@[simp] theorem tdCopy_enum (td : Stmt) (y : YType) : (tdCopy td y).enum = y.enum := by
+  unfold tdCopy; repeat' (first | rfl | split)
+@[simp] theorem tdCopy_bit (td : Stmt) (y : YType) : (tdCopy td y).bit = y.bit := by
+  unfold tdCopy; repeat' (first | rfl | split)
+@[simp] theorem tdCopy_members (td : Stmt) (y : YType) : (tdCopy td y).members = y.members := by
+  unfold tdCopy; repeat' (first | rfl | split)
+@[simp] theorem tdCopy_identityBase (td : Stmt) (y : YType) : (tdCopy td y).identityBase = y.identityBase := by
+  unfold tdCopy; repeat' (first | rfl | split)
+@[simp] theorem tdCopy_posixPattern (td : Stmt) (y : YType) : (tdCopy td y).posixPattern = y.posixPattern := by
+  unfold tdCopy; repeat' (first | rfl | split)
+@[simp] theorem tdCopy_range (td : Stmt) (y : YType) : (tdCopy td y).range = y.range := by
+  unfold tdCopy; repeat' (first | rfl | split)
+@[simp] theorem tdCopy_length (td : Stmt) (y : YType) : (tdCopy td y).length = y.length := by
+  unfold tdCopy; repeat' (first | rfl | split)
+@[simp] theorem tdCopy_optionalInstance (td : Stmt) (y : YType) : (tdCopy td y).optionalInstance = y.optionalInstance := by
+  unfold tdCopy; repeat' (first | rfl | split)
+@[simp] theorem tdUnits_name (td : Stmt) (y : YType) : (tdUnits td y).name = y.name := by
+  unfold tdUnits; repeat' (first | rfl | split)
+@[simp] theorem tdUnits_kind (td : Stmt) (y : YType) : (tdUnits td y).kind = y.kind := by
+  unfold tdUnits; repeat' (first | rfl | split)
+@[simp] theorem tdUnits_default (td : Stmt) (y : YType) : (tdUnits td y).default = y.default := by
+  unfold tdUnits; repeat' (first | rfl | split)
+@[simp] theorem tdUnits_hasDefault (td : Stmt) (y : YType) : (tdUnits td y).hasDefault = y.hasDefault := by
+  unfold tdUnits; repeat' (first | rfl | split)
+@[simp] theorem tdUnits_fractionDigits (td : Stmt) (y : YType) : (tdUnits td y).fractionDigits = y.fractionDigits := by
+  unfold tdUnits; repeat' (first | rfl | split)
+@[simp] theorem tdUnits_path (td : Stmt) (y : YType) : (tdUnits td y).path = y.path := by
+  unfold tdUnits; repeat' (first | rfl | split)
+@[simp] theorem tdUnits_pattern (td : Stmt) (y : YType) : (tdUnits td y).pattern = y.pattern := by
+  unfold tdUnits; repeat' (first | rfl | split)
+@[simp] theorem tdUnits_enum (td : Stmt) (y : YType) : (tdUnits td y).enum = y.enum := by
+  unfold tdUnits; repeat' (first | rfl | split)
+@[simp] theorem tdUnits_bit (td : Stmt) (y : YType) : (tdUnits td y).bit = y.bit := by
+  unfold tdUnits; repeat' (first | rfl | split)
+@[simp] theorem tdUnits_members (td : Stmt) (y : YType) : (tdUnits td y).members = y.members := by
+  unfold tdUnits; repeat' (first | rfl | split)
+@[simp] theorem tdUnits_identityBase (td : Stmt) (y : YType) : (tdUnits td y).identityBase = y.identityBase := by
+  unfold tdUnits; repeat' (first | rfl | split)
+@[simp] theorem tdUnits_posixPattern (td : Stmt) (y : YType) : (tdUnits td y).posixPattern = y.posixPattern := by
+  unfold tdUnits; repeat' (first | rfl | split)
+@[simp] theorem tdUnits_range (td : Stmt) (y : YType) : (tdUnits td y).range = y.range := by
+  unfold tdUnits; repeat' (first | rfl | split)
+@[simp] theorem tdUnits_length (td : Stmt) (y : YType) : (tdUnits td y).length = y.length := by
+  unfold tdUnits; repeat' (first | rfl | split)
+@[simp] theorem tdUnits_optionalInstance (td : Stmt) (y : YType) : (tdUnits td y).optionalInstance = y.optionalInstance := by
+  unfold tdUnits; repeat' (first | rfl | split)
+@[simp] theorem tdDefault_name (td : Stmt) (y : YType) : (tdDefault td y).name = y.name := by
+  unfold tdDefault; repeat' (first | rfl | split)
+@[simp] theorem tdDefault_kind (td : Stmt) (y : YType) : (tdDefault td y).kind = y.kind := by
+  unfold tdDefault; repeat' (first | rfl | split)
+@[simp] theorem tdDefault_units (td : Stmt) (y : YType) : (tdDefault td y).units = y.units := by
+  unfold tdDefault; repeat' (first | rfl | split)
+@[simp] theorem tdDefault_fractionDigits (td : Stmt) (y : YType) : (tdDefault td y).fractionDigits = y.fractionDigits := by
+  unfold tdDefault; repeat' (first | rfl | split)
+@[simp] theorem tdDefault_path (td : Stmt) (y : YType) : (tdDefault td y).path = y.path := by
+  unfold tdDefault; repeat' (first | rfl | split)
+@[simp] theorem tdDefault_pattern (td : Stmt) (y : YType) : (tdDefault td y).pattern = y.pattern := by
+  unfold tdDefault; repeat' (first | rfl | split)
+@[simp] theorem tdDefault_enum (td : Stmt) (y : YType) : (tdDefault td y).enum = y.enum := by
+  unfold tdDefault; repeat' (first | rfl | split)
+@[simp] theorem tdDefault_bit (td : Stmt) (y : YType) : (tdDefault td y).bit = y.bit := by
+  unfold tdDefault; repeat' (first | rfl | split)
+@[simp] theorem tdDefault_members (td : Stmt) (y : YType) : (tdDefault td y).members = y.members := by
+  unfold tdDefault; repeat' (first | rfl | split)
+@[simp] theorem tdDefault_identityBase (td : Stmt) (y : YType) : (tdDefault td y).identityBase = y.identityBase := by
+  unfold tdDefault; repeat' (first | rfl | split)
+@[simp] theorem tdDefault_posixPattern (td : Stmt) (y : YType) : (tdDefault td y).posixPattern = y.posixPattern := by
+  unfold tdDefault; repeat' (first | rfl | split)
+@[simp] theorem tdDefault_range (td : Stmt) (y : YType) : (tdDefault td y).range = y.range := by
+  unfold tdDefault; repeat' (first | rfl | split)
+@[simp] theorem tdDefault_length (td : Stmt) (y : YType) : (tdDefault td y).length = y.length := by
+  unfold tdDefault; repeat' (first | rfl | split)
+@[simp] theorem tdDefault_optionalInstance (td : Stmt) (y : YType) : (tdDefault td y).optionalInstance = y.optionalInstance := by
+  unfold tdDefault; repeat' (first | rfl | split)
+@[simp] theorem tdRoot_name (ty y : YType) : (tdRoot ty y).name = y.name := by
+  unfold tdRoot; repeat' (first | rfl | split)
+@[simp] theorem tdRoot_kind (ty y : YType) : (tdRoot ty y).kind = y.kind := by
+  unfold tdRoot; repeat' (first | rfl | split)
+@[simp] theorem tdRoot_units (ty y : YType) : (tdRoot ty y).units = y.units := by
+  unfold tdRoot; repeat' (first | rfl | split)
+@[simp] theorem tdRoot_default (ty y : YType) : (tdRoot ty y).default = y.default := by
+  unfold tdRoot; repeat' (first | rfl | split)
+@[simp] theorem tdRoot_hasDefault (ty y : YType) : (tdRoot ty y).hasDefault = y.hasDefault := by
+  unfold tdRoot; repeat' (first | rfl | split)
+@[simp] theorem tdRoot_fractionDigits (ty y : YType) : (tdRoot ty y).fractionDigits = y.fractionDigits := by
+  unfold tdRoot; repeat' (first | rfl | split)
+@[simp] theorem tdRoot_path (ty y : YType) : (tdRoot ty y).path = y.path := by
+  unfold tdRoot; repeat' (first | rfl | split)
+@[simp] theorem tdRoot_pattern (ty y : YType) : (tdRoot ty y).pattern = y.pattern := by
+  unfold tdRoot; repeat' (first | rfl | split)
+@[simp] theorem tdRoot_enum (ty y : YType) : (tdRoot ty y).enum = y.enum := by
+  unfold tdRoot; repeat' (first | rfl | split)
+@[simp] theorem tdRoot_bit (ty y : YType) : (tdRoot ty y).bit = y.bit := by
+  unfold tdRoot; repeat' (first | rfl | split)
+@[simp] theorem tdRoot_members (ty y : YType) : (tdRoot ty y).members = y.members := by
+  unfold tdRoot; repeat' (first | rfl | split)
+@[simp] theorem tdRoot_identityBase (ty y : YType) : (tdRoot ty y).identityBase = y.identityBase := by
+  unfold tdRoot; repeat' (first | rfl | split)
+@[simp] theorem tdRoot_posixPattern (ty y : YType) : (tdRoot ty y).posixPattern = y.posixPattern := by
+  unfold tdRoot; repeat' (first | rfl | split)
+@[simp] theorem tdRoot_range (ty y : YType) : (tdRoot ty y).range = y.range := by
+  unfold tdRoot; repeat' (first | rfl | split)
+@[simp] theorem tdRoot_length (ty y : YType) : (tdRoot ty y).length = y.length := by
+  unfold tdRoot; repeat' (first | rfl | split)
+@[simp] theorem tdRoot_optionalInstance (ty y : YType) : (tdRoot ty y).optionalInstance = y.optionalInstance := by
+  unfold tdRoot; repeat' (first | rfl | split)
+
+theorem tdIdentity_frame {env : Env} {root : Mod} {tt : Stmt} {y y' : YType} (h : tdIdentity env root tt y = some y') :
+    y'.name = y.name ∧ y'.kind = y.kind ∧ y'.units = y.units ∧ y'.default = y.default ∧ y'.hasDefault = y.hasDefault ∧
+    y'.fractionDigits = y.fractionDigits ∧ y'.path = y.path ∧ y'.pattern = y.pattern ∧ y'.enum = y.enum ∧
+    y'.bit = y.bit ∧ y'.members = y.members := by
+  unfold tdIdentity at h
+  split at h
+  · cases h; exact ⟨rfl, rfl, rfl, rfl, rfl, rfl, rfl, rfl, rfl, rfl, rfl⟩
+  · split at h
+    · cases h; exact ⟨rfl, rfl, rfl, rfl, rfl, rfl, rfl, rfl, rfl, rfl, rfl⟩
+    · cases h
+
+theorem tdUnits_units (td : Stmt) (y : YType) : (tdUnits td y).units = (td.argOf? "units").getD y.units := by
+  unfold tdUnits Stmt.argOf?
+  split <;> rename_i h <;> simp [h]
+
+theorem tdDefault_default (td : Stmt) (y : YType) : (tdDefault td y).default = (td.argOf? "default").getD y.default := by
+  unfold tdDefault Stmt.argOf?
+  split <;> rename_i h <;> simp [h]
+
+theorem tdDefault_hasDefault (td : Stmt) (y : YType) :
+    (tdDefault td y).hasDefault = ((td.argOf? "default").isSome || y.hasDefault) := by
+  unfold tdDefault Stmt.argOf?
+  split <;> rename_i h <;> simp [h]
+
+theorem typedefOverlay_ok {env : Env} {root : Mod} {td tt : Stmt} {ty y : YType}
+    (h : typedefOverlay env root td tt ty = { ty := some y, errs := [] }) :
+    y.name = td.arg ∧ y.kind = ty.kind ∧
+    y.units = (td.argOf? "units").getD ty.units ∧
+    y.hasDefault = ((td.argOf? "default").isSome || ty.hasDefault) ∧
+    y.default = (td.argOf? "default").getD ty.default ∧
+    y.path = ty.path ∧ y.pattern = ty.pattern ∧ y.enum = ty.enum ∧ y.bit = ty.bit ∧
+    y.members = ty.members ∧ y.fractionDigits = ty.fractionDigits := by
+  unfold typedefOverlay at h
+  split at h
+  · simp at h
+  · rename_i y' hy'
+    simp only [Res.mk.injEq, Option.some.injEq, and_true] at h
+    obtain ⟨h1, h2, h3, h4, h5, h6, h7, h8, h9, h10, h11⟩ := tdIdentity_frame hy'
+    subst h
+    refine ⟨?_, ?_, ?_, ?_, ?_, ?_, ?_, ?_, ?_, ?_, ?_⟩
+    · simp [h1, tdCopy]
+    · simp [h2]
+    · simp [h3, tdUnits_units]
+    · simp [h5, tdDefault_hasDefault]
+    · simp [h4, tdDefault_default]
+    · simp [h7]
+    · simp [h8]
+    · simp [h9]
+    · simp [h10]
+    · simp [h11]
+    · simp [h6]
+
+/-! ## One level of `Type.resolve`, error-free -/
+
+@[simp] theorem startSt_frame_kind (t : Stmt) (y : YType) : (startSt t y).1.kind = y.kind := by simp [startSt]
+@[simp] theorem startSt_frame_units (t : Stmt) (y : YType) : (startSt t y).1.units = y.units := by simp [startSt]
+@[simp] theorem startSt_frame_default (t : Stmt) (y : YType) : (startSt t y).1.default = y.default := by simp [startSt]
+@[simp] theorem startSt_frame_hasDefault (t : Stmt) (y : YType) : (startSt t y).1.hasDefault = y.hasDefault := by simp [startSt]
+@[simp] theorem startSt_frame_pattern (t : Stmt) (y : YType) : (startSt t y).1.pattern = y.pattern := by simp [startSt]
+@[simp] theorem startSt_frame_enum (t : Stmt) (y : YType) : (startSt t y).1.enum = y.enum := by simp [startSt]
+@[simp] theorem startSt_frame_bit (t : Stmt) (y : YType) : (startSt t y).1.bit = y.bit := by simp [startSt]
+@[simp] theorem startSt_frame_members (t : Stmt) (y : YType) : (startSt t y).1.members = y.members := by simp [startSt]
+@[simp] theorem startSt_frame_fd (t : Stmt) (y : YType) : (startSt t y).1.fractionDigits = y.fractionDigits := by simp [startSt]
+theorem startSt_path (t : Stmt) (y : YType) : (startSt t y).1.path = (t.argOf? "path").getD y.path := by
+  simp [startSt, stepPath_path]
+
+/-- What one error-free `Type.resolve` step makes of the YangType of the typedef it is based on. -/
+theorem overlay_attrs {env : Env} {root : Mod} {t : Stmt} {src : Source} {tdY : YType} {ms : List Res} {y : YType}
+    (h : overlayType env root t src tdY ms = { ty := some y, errs := [] }) :
+    y.kind = tdY.kind ∧ y.units = tdY.units ∧ y.hasDefault = tdY.hasDefault ∧ y.default = tdY.default ∧
+    y.path = (t.argOf? "path").getD tdY.path ∧
+    y.pattern = appendNew tdY.pattern ((t.all "pattern").map Stmt.arg) ∧
+    y.enum = (if (t.all "enum").isEmpty then tdY.enum else some (enumFold newEnum "value" (t.all "enum")).1) ∧
+    y.bit = (if (t.all "bit").isEmpty then tdY.bit else some (enumFold newBits "position" (t.all "bit")).1) ∧
+    y.fractionDigits = (match t.one? "fraction-digits" with
+      | some f => parseFd f
+      | none => tdY.fractionDigits) ∧
+    y.members = addMembers tdY.members ms := by
+  obtain ⟨hc, pps, _, hy, herrs⟩ := overlayType_ok h
+  have hk := overlayLocal_errs_nil (stepPosix_errs_nil (stepMembers_errs_nil herrs))
+  have hs : (startSt t tdY).2 = [] := stepKind_errs_nil hk
+  have hfd := stepKind_fd hs hk (by simpa using hc)
+  subst hy
+  refine ⟨?_, ?_, ?_, ?_, ?_, ?_, ?_, ?_, ?_, ?_⟩
+  · simp [overlayLocal]
+  · simp [overlayLocal]
+  · simp [overlayLocal]
+  · simp [overlayLocal]
+  · simp [overlayLocal, startSt_path]
+  · simp [overlayLocal, stepPattern]
+  · simp [overlayLocal, stepEnum_enum]
+  · simp [overlayLocal, stepBit_bit]
+  · simp only [overlayLocal, fixRoot_fractionDigits, stepMembers_fractionDigits, stepPosix_fractionDigits,
+      stepPattern_fractionDigits, stepBit_fractionDigits, stepEnum_fractionDigits, stepLength_fractionDigits,
+      stepRange_fractionDigits]
+    rw [hfd]
+    simp
+  · simp [overlayLocal, stepMembers]
+
+/-! ## Union members -/
+
+theorem addMembers_sub : ∀ (rs : List Res) (have_ : List YType), ∀ m ∈ have_, m ∈ addMembers have_ rs := by
+  intro rs
+  induction rs with
+  | nil => intro have_ m hm; simpa [addMembers] using hm
+  | cons r rest ih =>
+    intro have_ m hm
+    unfold addMembers
+    split
+    · split
+      · exact ih have_ m hm
+      · exact ih _ m (List.mem_append_left _ hm)
+    · exact ih have_ m hm
+
+theorem addMembers_mem : ∀ (rs : List Res) (have_ : List YType) (m : YType),
+    m ∈ addMembers have_ rs → m ∈ have_ ∨ ∃ r ∈ rs, r.ty = some m := by
+  intro rs
+  induction rs with
+  | nil => intro have_ m hm; exact Or.inl (by simpa [addMembers] using hm)
+  | cons r rest ih =>
+    intro have_ m hm
+    unfold addMembers at hm
+    split at hm
+    · rename_i m0 hm0
+      split at hm
+      · rcases ih have_ m hm with h | ⟨r', hr', h⟩
+        · exact Or.inl h
+        · exact Or.inr ⟨r', List.mem_cons_of_mem _ hr', h⟩
+      · rcases ih _ m hm with h | ⟨r', hr', h⟩
+        · rw [List.mem_append, List.mem_singleton] at h
+          rcases h with h | h
+          · exact Or.inl h
+          · exact Or.inr ⟨r, List.mem_cons_self, by rw [h, hm0]⟩
+        · exact Or.inr ⟨r', List.mem_cons_of_mem _ hr', h⟩
+    · rcases ih have_ m hm with h | ⟨r', hr', h⟩
+      · exact Or.inl h
+      · exact Or.inr ⟨r', List.mem_cons_of_mem _ hr', h⟩
+
+/-- Every resolved member is in the list, or was left out because an `Equal` one is. -/
+theorem addMembers_covers : ∀ (rs : List Res) (have_ : List YType) (r : Res) (m : YType),
+    r ∈ rs → r.ty = some m → ∃ m' ∈ addMembers have_ rs, m' = m ∨ m.equal m' = true := by
+  intro rs
+  induction rs with
+  | nil => intro _ r _ hr; cases hr
+  | cons r0 rest ih =>
+    intro have_ r m hr hm
+    unfold addMembers
+    cases hr with
+    | head =>
+      rw [hm]
+      simp only
+      split
+      · rename_i hany
+        obtain ⟨m', hm', heq⟩ := List.any_eq_true.mp hany
+        exact ⟨m', addMembers_sub rest have_ m' hm', Or.inr heq⟩
+      · exact ⟨m, addMembers_sub rest _ m (List.mem_append_right _ (List.mem_singleton.mpr rfl)), Or.inl rfl⟩
+    | tail _ hr =>
+      split
+      · split
+        · exact ih have_ r m hr hm
+        · exact ih _ r m hr hm
+      · exact ih have_ r m hr hm
+
+/-- A resolution without errors has set `YangType`. -/
+theorem resolve_ty_some (env : Env) : ∀ (fuel : Nat) (root : Mod) (scope : List Stmt) (t : Stmt) (stack : List TypeKey),
+    (resolveTypeF env fuel root scope t stack).errs = [] →
+    ∃ y, resolveTypeF env fuel root scope t stack = { ty := some y, errs := [] } := by
+  intro fuel root scope t stack h
+  have hov : ∀ {src : Source} {tdY : YType} {ms : List Res}, ∃ y, (overlayType env root t src tdY ms).ty = some y := by
+    intro src tdY ms
+    unfold overlayType
+    simp only []
+    split
+    · exact ⟨_, rfl⟩
+    · split <;> exact ⟨_, rfl⟩
+  cases fuel with
+  | zero => simp [resolveTypeF] at h
+  | succ fuel =>
+    unfold resolveTypeF at h ⊢
+    simp only at h ⊢
+    split
+    · rename_i hc; rw [if_pos hc] at h; simp at h
+    · rename_i hc
+      rw [if_neg hc] at h
+      split
+      · rename_i e hl; rw [hl] at h; simp at h
+      · rename_i y0 hl
+        rw [hl] at h
+        simp only at h
+        obtain ⟨y, hy⟩ := hov (src := .builtin) (tdY := y0)
+          (ms := (t.all "type").map fun ut => resolveTypeF env fuel root (t :: scope) ut (typeKey root t :: stack))
+        exact ⟨y, by rw [← hy, ← h]⟩
+      · rename_i src r hl
+        rw [hl] at h
+        simp only at h
+        split
+        · rename_i htt; rw [htt] at h; simp at h
+        · rename_i tt htt
+          rw [htt] at h
+          simp only at h
+          split
+          · rename_i hb; rw [if_pos hb] at h; simp only at h; rw [h] at hb; simp at hb
+          · rename_i hb
+            rw [if_neg hb] at h
+            split
+            · rename_i hty; rw [hty] at h; simp at h
+            · rename_i bty hty
+              rw [hty] at h
+              simp only at h
+              split
+              · rename_i hne; rw [if_pos hne] at h; simp only at h; rw [h] at hne; simp at hne
+              · rename_i hne
+                rw [if_neg hne] at h
+                split
+                · rename_i hn; rw [hn] at h; simp at h
+                · rename_i tdY htdY
+                  rw [htdY] at h
+                  simp only at h
+                  obtain ⟨y, hy⟩ := hov (src := src) (tdY := tdY)
+                    (ms := (t.all "type").map fun ut => resolveTypeF env fuel root (t :: scope) ut (typeKey root t :: stack))
+                  exact ⟨y, by rw [← hy, ← h]⟩
+
+/-- The member types of one error-free `Type.resolve` step. -/
+theorem level_members {env : Env} {fuel : Nat} {root : Mod} {scope : List Stmt} {t : Stmt} {stk : List TypeKey}
+    {src : Source} {tdY y : YType}
+    (h : overlayType env root t src tdY
+      ((t.all "type").map fun ut => resolveTypeF env fuel root (t :: scope) ut stk) = { ty := some y, errs := [] }) :
+    (∀ m ∈ y.members, m ∈ tdY.members ∨
+      ∃ ut ∈ t.all "type", resolveTypeF env fuel root (t :: scope) ut stk = { ty := some m, errs := [] }) ∧
+    (∀ ut ∈ t.all "type", ∃ m, resolveTypeF env fuel root (t :: scope) ut stk = { ty := some m, errs := [] } ∧
+      ∃ m' ∈ y.members, m' = m ∨ m.equal m' = true) ∧
+    (∀ m ∈ tdY.members, m ∈ y.members) := by
+  have herr : ∀ ut ∈ t.all "type", (resolveTypeF env fuel root (t :: scope) ut stk).errs = [] := by
+    intro ut hut
+    have he : (overlayType env root t src tdY
+      ((t.all "type").map fun ut => resolveTypeF env fuel root (t :: scope) ut stk)).errs = [] := by rw [h]
+    exact overlayType_errs_nil he _ (List.mem_map_of_mem (f := fun ut => resolveTypeF env fuel root (t :: scope) ut stk) hut)
+  have hmem := (overlay_attrs h).2.2.2.2.2.2.2.2.2
+  refine ⟨?_, ?_, ?_⟩
+  · intro m hm
+    rw [hmem] at hm
+    rcases addMembers_mem _ _ _ hm with h1 | ⟨r, hr, hty⟩
+    · exact Or.inl h1
+    · obtain ⟨ut, hut, rfl⟩ := List.mem_map.mp hr
+      obtain ⟨y', hy'⟩ := resolve_ty_some env fuel root (t :: scope) ut stk (herr ut hut)
+      refine Or.inr ⟨ut, hut, ?_⟩
+      rw [hy'] at hty ⊢
+      simp only [Option.some.injEq] at hty
+      rw [hty]
+  · intro ut hut
+    obtain ⟨m, hm⟩ := resolve_ty_some env fuel root (t :: scope) ut stk (herr ut hut)
+    refine ⟨m, hm, ?_⟩
+    rw [hmem]
+    exact addMembers_covers _ _ _ m
+      (List.mem_map_of_mem (f := fun ut => resolveTypeF env fuel root (t :: scope) ut stk) hut) (by rw [hm])
+  · intro m hm
+    rw [hmem]
+    exact addMembers_sub _ _ m hm
+
 end Goyang.Lemmas.Types
